@@ -81,6 +81,8 @@ FileLoad(e) ==
                              (IF e.opts.halted /\ (e.after3.a # Hi(d.cpu.af) \/ ~e.after3.halted) THEN {"halted:runs-on"} ELSE {})
                              \cup (IF e.opts.ay # <<>> /\ e.ay_readback # e.opts.ay[1].regs THEN {"ay:registers"} ELSE {})
                              \cup (IF e.opts.audible /\ e.after3.energy = 0 THEN {"ay:silent"} ELSE {})
+                             \* registers that define silence give silence, whatever the receiving machine was playing
+                             \cup (IF e.opts.quiet /\ e.after3.energy_last # 0 THEN {"ay:not-silent"} ELSE {})
                              \cup (IF e.opts.mouse # -1 /\ e.mouse_present # (e.opts.mouse = 2) THEN {"mouse"} ELSE {}))
     IN IF issues = {} THEN bad' = bad
        ELSE /\ PrintT(<<"MISMATCH", l, "fileload",
